@@ -74,6 +74,15 @@ CHECKS = {
 "C33": ("exploration", "deterministic simulation (swarm): structure-aware random requests of every session-bound service plus ActivateSession with crafted tokens, interleaved with timer ticks and raised events, against the real server tasks; crash / liveness oracle with process isolation",
         "Oracle: every request is answered by a response or ServiceFault, no server task panics (panic hook), the worker process survives (stack overflow / abort detection, watchdog) and a trailing Read still succeeds.",
         "Requests are structurally valid (typed structures through the real encoder); 12% of runs use a signed channel so sessions have a real nonce.", "7/C33"),
+"C07": ("exploration", "deterministic simulation: two channel roles (real SendBuffer / MessageWriter -> secure channel -> codec -> chunker) joined by a reliable simulated stream; enumerated configuration grid + seeded sizes; conservation oracle",
+        "Grid policy x mode x key size x chunk size x direction with message sizes placed on chunk boundaries, MSG and OPN; oracle: decoded == sent, consecutive sequence numbers, one request id, final flag last, no chunk above the negotiated size (both roles).",
+        "Channel pairs are set up through the SecureChannel setters the OpenSecureChannel services call; quick tier without 4096-bit keys.", "7/C07"),
+"C08": ("fault_enumeration", "deterministic simulation with a corrupting channel: every byte offset flipped, every truncation length, extensions, foreign keys / certificate / token, for every secured configuration; never-delivered oracle",
+        "Oracle: the receiver delivers nothing, or only the original message from byte-identical frames.",
+        "Quick: key sizes 1024/2048, one message size; thorough: + 4096 and three sizes.", "7/C08"),
+"C09": ("exploration", "deterministic simulation with a Byzantine raw peer: structure-aware malformed OPN/MSG/CLO chunks against the receive path in every reachable channel state; totality (no-panic) oracle",
+        "40 mutations per run (length fields -1/0/huge, truncation below header+signature, wrong chunk type, random frames, bit flips) x receiver states {keys established, policy set without keys, fresh, fresh with certificate} x all policies/modes/roles.",
+        "Panics are caught per mutation, so one run reports every panic site it reaches.", "7/C09"),
 }
 
 def main():
